@@ -1,6 +1,75 @@
-//! Drivers: smoke test and seeded scenario generators.
+//! Seeded drivers: produce further real executions (random histories, boundary searches).
+//! They only execute and record; TLC judges the traces.
 use crate::act::Exec;
-use serde_json::{json, Value};
+use rand::{rngs::StdRng, Rng, SeedableRng};
+use serde_json::{json, Map, Value};
+use std::io::{BufWriter, Write};
+
+pub struct Recorder {
+    pub ex: Exec,
+    w: BufWriter<std::fs::File>,
+    base: (crate::env::Env, Map<String, Value>, u64),
+    setup: Vec<Value>,
+    pub scn: u64,
+    pub events: u64,
+}
+
+impl Recorder {
+    pub fn new(path: &str, setup: Vec<Value>) -> Recorder {
+        let mut ex = Exec::new();
+        for a in &setup {
+            let ev = ex.apply(a);
+            if ev["res"] != "ok" && a.get("may_fail").is_none() {
+                eprintln!("SETUP-FAILED action={} label={}", a, ev["label"]);
+                std::process::exit(2);
+            }
+        }
+        let base = ex.snapshot();
+        let w = BufWriter::new(std::fs::File::create(path).expect("create trace"));
+        Recorder { ex, w, base, setup, scn: 0, events: 0 }
+    }
+    /// start a new scenario from the post-setup snapshot (plus optional extra setup actions)
+    pub fn begin(&mut self, extra: &[Value]) {
+        self.ex.restore(&self.base.clone());
+        let mut setup = self.setup.clone();
+        for a in extra {
+            let ev = self.ex.apply(a);
+            if ev["res"] != "ok" && a.get("may_fail").is_none() {
+                eprintln!("EXTRA-SETUP-FAILED action={} label={} err={}", a, ev["label"], ev["err"]);
+            }
+            setup.push(a.clone());
+        }
+        self.scn += 1;
+        let full = crate::proj::project(&self.ex.env);
+        self.ex.last = full.clone();
+        writeln!(self.w, "{}", json!({"i": 0, "scn": self.scn, "ev": "reset", "a": {"op": "reset", "setup": setup}, "res": "ok", "code": 0, "err": "",
+            "label": "", "failed_ix": -1, "ts": crate::num::big_i(self.ex.env.world.clock.unix_timestamp as i128), "chg": Value::Object(full)})).unwrap();
+        self.ex.n = 1;
+    }
+    pub fn act(&mut self, a: Value) -> Value {
+        let mut ev = self.ex.apply(&a);
+        ev["scn"] = json!(self.scn);
+        writeln!(self.w, "{}", ev).unwrap();
+        self.events += 1;
+        ev
+    }
+    /// execute without recording (used by boundary searches to probe), state is restored afterwards
+    pub fn probe(&mut self, a: &Value) -> Value {
+        let s = self.ex.snapshot();
+        let ev = self.ex.apply(a);
+        self.ex.restore(&s);
+        ev
+    }
+    pub fn finish(mut self) {
+        self.w.flush().unwrap();
+    }
+}
+
+pub fn load_setup(name: &str) -> Vec<Value> {
+    let p = format!("{}/../spec/setups/{}.json", env!("CARGO_MANIFEST_DIR"), name);
+    let v: Value = serde_json::from_str(&std::fs::read_to_string(&p).unwrap_or_else(|_| panic!("setup {}", p))).expect("setup json");
+    v.as_array().unwrap().clone()
+}
 
 pub fn std_setup() -> Vec<Value> {
     vec![
@@ -27,25 +96,90 @@ pub fn smoke() {
     acts.extend(vec![
         json!({"op":"deposit","acct":"A1","bank":"B1","amount":500000000u64}),
         json!({"op":"deposit","acct":"A2","bank":"B2","amount":50000000000u64}),
-        json!({"op":"borrow","acct":"A2","bank":"B1","amount":900000000u64}),
         json!({"op":"borrow","acct":"A2","bank":"B1","amount":100000000u64}),
         json!({"op":"tick","dt":3600}),
         json!({"op":"accrue","bank":"B1"}),
-        json!({"op":"repay","acct":"A2","bank":"B1","amount":0,"all":true}),
         json!({"op":"withdraw","acct":"A1","bank":"B1","amount":0,"all":true}),
-        json!({"op":"deposit","acct":"A1","bank":"B1","amount":5,"signer":"U2"}),
     ]);
     for a in acts {
-        let t0 = std::time::Instant::now();
         let ev = ex.apply(&a);
-        let sz = ev.to_string().len();
-        println!("{:<18} {} {} {} ({} bytes, {:?})", ev["ev"].as_str().unwrap(), ev["res"], ev["code"], ev["label"], sz, t0.elapsed());
+        eprintln!("{:<18} {} {} {}", ev["ev"].as_str().unwrap(), ev["res"], ev["code"], ev["err"]);
     }
-    println!("{}", serde_json::to_string(&ex.last["banks"]["B1"]).unwrap());
-    println!("{}", serde_json::to_string(&ex.last["accts"]["A2"]["bal"][0]).unwrap());
-    println!("{}", serde_json::to_string(&ex.last["tok"]).unwrap());
 }
 
-pub fn drive(_name: &str, _out: &str, _args: &[String]) {
-    unimplemented!()
+fn arg<T: std::str::FromStr>(args: &[String], i: usize, d: T) -> T {
+    args.get(i).and_then(|s| s.parse().ok()).unwrap_or(d)
+}
+
+/// hx drive <name> <outdir> <seed> [args...]
+pub fn drive(name: &str, out: &str, args: &[String]) {
+    let seed: u64 = arg(args, 0, 1);
+    match name {
+        "panic" => panic_driver(out, seed, arg(args, 1, 200), arg(args, 2, 60)),
+        _ => {
+            eprintln!("unknown driver {}", name);
+            std::process::exit(2);
+        }
+    }
+}
+
+/// Random pause/unpause/propagate/probe schedules at one-second resolution, with clock advances
+/// biased to land on, just before and just after the expiry and daily-reset boundaries.
+fn panic_driver(out: &str, seed: u64, n: u64, len: u64) {
+    let mut rng = StdRng::seed_from_u64(seed);
+    let mut r = Recorder::new(&format!("{}/panic.trace", out), load_setup("panic"));
+    for _ in 0..n {
+        r.begin(&[]);
+        for _ in 0..len {
+            let fs = r.ex.fee_state().unwrap();
+            let now = r.ex.env.world.clock.unix_timestamp;
+            let ps = fs.panic_state;
+            let choice = rng.gen_range(0..100);
+            let a = if choice < 30 {
+                // tick
+                let mut cands: Vec<i64> = vec![1, rng.gen_range(1..4000), rng.gen_range(1..100000)];
+                if ps.pause_flags & 1 == 1 {
+                    let to_exp = ps.pause_start_timestamp + 1800 - now;
+                    for d in [-1, 0, 1] {
+                        if to_exp + d > 0 {
+                            cands.push(to_exp + d);
+                            cands.push(to_exp + d);
+                        }
+                    }
+                }
+                let to_day = ps.last_daily_reset_timestamp + 86400 - now;
+                for d in [-1, 0, 1] {
+                    if to_day + d > 0 {
+                        cands.push(to_day + d);
+                    }
+                }
+                let g = r.ex.group("G1").unwrap().panic_state_cache;
+                if g.pause_flags & 1 == 1 {
+                    let to_exp = g.pause_start_timestamp + 1800 - now;
+                    for d in [-1, 0, 1] {
+                        if to_exp + d > 0 {
+                            cands.push(to_exp + d);
+                        }
+                    }
+                }
+                let dt = cands[rng.gen_range(0..cands.len())];
+                json!({"op":"tick","dt":dt})
+            } else if choice < 50 {
+                json!({"op":"panic_pause"})
+            } else if choice < 58 {
+                json!({"op":"panic_unpause"})
+            } else if choice < 68 {
+                json!({"op":"panic_unpause_perm"})
+            } else if choice < 80 {
+                json!({"op":"propagate_fee","group": if rng.gen_bool(0.7) {"G1"} else {"G2"}})
+            } else if choice < 97 {
+                let g = if rng.gen_bool(0.7) { "G1" } else { "G2" };
+                json!({"op":"deposit","acct":format!("A.{}", g),"bank":format!("PB.{}", g),"amount":1})
+            } else {
+                json!({"op":"panic_pause","signer":"U1"})
+            };
+            r.act(a);
+        }
+    }
+    r.finish();
 }
